@@ -1,12 +1,6 @@
-namespace C
-abbrev Bytes := List UInt8
-
-def isP2pkh (s : Bytes) : Bool :=
-  s.length == 25 && s[0]? == some 0x76 && s[1]? == some 0xa9 && s[2]? == some 0x14 &&
-  s[23]? == some 0x88 && s[24]? == some 0xac
-
-def isP2sh (s : Bytes) : Bool :=
-  s.length == 23 && s[0]? == some 0xa9 && s[1]? == some 0x14 && s[22]? == some 0x87
+import Rbp.Model.Script
+/-! Byte-template characterisations of the rust-bitcoin predicates as modelled in `S` (C05). -/
+namespace S
 
 /-- generic: a list with known prefix bytes, total length, and suffix bytes decomposes -/
 theorem decompose (s pre suf : Bytes) (n : Nat)
@@ -25,12 +19,17 @@ theorem decompose (s pre suf : Bytes) (n : Nat)
     rw [h2] at h1
     simpa [List.append_assoc] using h1
 
+theorem get_eq (s : Bytes) (i : Nat) (b : UInt8) (h : i < s.length) : get s i = b ↔ s[i]? = some b := by
+  unfold get
+  simp [List.getD, List.getElem?_eq_getElem h]
+
 theorem isP2pkh_iff (s : Bytes) :
     isP2pkh s = true ↔ ∃ h : Bytes, h.length = 20 ∧ s = [0x76, 0xa9, 0x14] ++ h ++ [0x88, 0xac] := by
   constructor
   · intro h
-    simp only [isP2pkh, Bool.and_eq_true, beq_iff_eq] at h
-    obtain ⟨⟨⟨⟨⟨hl, h0⟩, h1⟩, h2⟩, h23⟩, h24⟩ := h
+    simp only [isP2pkh, decide_eq_true_eq] at h
+    obtain ⟨hl, h0, h1, h2, h23, h24⟩ := h
+    rw [get_eq s _ _ (by omega)] at h0 h1 h2 h23 h24
     apply decompose s [0x76, 0xa9, 0x14] [0x88, 0xac] 20
     · simpa using hl
     · apply List.ext_getElem? ; intro i
@@ -42,6 +41,117 @@ theorem isP2pkh_iff (s : Bytes) :
       · simp [List.getElem?_drop]
         omega
   · rintro ⟨h, hl, rfl⟩
-    simp [isP2pkh, hl, List.getElem?_append_left, List.getElem?_append_right]
+    simp [isP2pkh, get, hl, List.getD, List.getElem?_append_left, List.getElem?_append_right]
 
-end C
+theorem isP2sh_iff (s : Bytes) :
+    isP2sh s = true ↔ ∃ h : Bytes, h.length = 20 ∧ s = [0xa9, 0x14] ++ h ++ [0x87] := by
+  constructor
+  · intro h
+    simp only [isP2sh, decide_eq_true_eq] at h
+    obtain ⟨hl, h0, h1, h22⟩ := h
+    rw [get_eq s _ _ (by omega)] at h0 h1 h22
+    apply decompose s [0xa9, 0x14] [0x87] 20
+    · simpa using hl
+    · apply List.ext_getElem? ; intro i
+      rcases i with _ | _ | i <;> simp_all [List.getElem?_take]
+    · apply List.ext_getElem? ; intro i
+      rcases i with _ | i
+      · simpa using h22
+      · simp [List.getElem?_drop]
+        omega
+  · rintro ⟨h, hl, rfl⟩
+    simp [isP2sh, get, hl, List.getD, List.getElem?_append_left, List.getElem?_append_right]
+
+def pkPrefix (testnet : Bool) : UInt8 := if testnet then 0x6f else 0x00
+def shPrefix (testnet : Bool) : UInt8 := if testnet then 0xc4 else 0x05
+def hrp (testnet : Bool) : String := if testnet then "tb" else "bc"
+
+theorem take_append_len (h rest : Bytes) (n : Nat) (hl : h.length = n) : (h ++ rest).take n = h := by
+  rw [← hl]; simp
+
+theorem eval_p2pkh (testnet : Bool) (h : Bytes) (hl : h.length = 20) :
+    evalBtc testnet ([0x76, 0xa9, 0x14] ++ h ++ [0x88, 0xac]) = ⟨.p2pkh, some (A.base58check (pkPrefix testnet :: h))⟩ := by
+  have hp : isP2pkh ([0x76, 0xa9, 0x14] ++ h ++ [0x88, 0xac]) = true := (isP2pkh_iff _).mpr ⟨h, hl, rfl⟩
+  have hk : isP2pk ([0x76, 0xa9, 0x14] ++ h ++ [0x88, 0xac]) = none := by simp [isP2pk, hl]
+  have hu : unspendableFirst ([0x76, 0xa9, 0x14] ++ h ++ [0x88, 0xac]) = false := by
+    simp [unspendableFirst]; decide
+  unfold evalBtc
+  simp only [hp, hk, hu]
+  cases testnet <;> simp [pkPrefix, take_append_len h _ 20 hl]
+
+theorem eval_p2sh (testnet : Bool) (h : Bytes) (hl : h.length = 20) :
+    evalBtc testnet ([0xa9, 0x14] ++ h ++ [0x87]) = ⟨.p2sh, some (A.base58check (shPrefix testnet :: h))⟩ := by
+  have hp : isP2sh ([0xa9, 0x14] ++ h ++ [0x87]) = true := (isP2sh_iff _).mpr ⟨h, hl, rfl⟩
+  have hq : isP2pkh ([0xa9, 0x14] ++ h ++ [0x87]) = false := by simp [isP2pkh, hl]
+  have hk : isP2pk ([0xa9, 0x14] ++ h ++ [0x87]) = none := by simp [isP2pk, hl]
+  have hu : unspendableFirst ([0xa9, 0x14] ++ h ++ [0x87]) = false := by
+    simp [unspendableFirst]; decide
+  unfold evalBtc
+  simp only [hp, hq, hk, hu]
+  cases testnet <;> simp [shPrefix, take_append_len h _ 20 hl]
+
+theorem eval_p2pk (testnet : Bool) (k : Bytes) (hl : k.length = 33 ∨ k.length = 65) :
+    evalBtc testnet (UInt8.ofNat k.length :: k ++ [0xac]) = ⟨.p2pk, some (A.base58check (pkPrefix testnet :: A.hash160 k))⟩ := by
+  rcases hl with hl | hl
+  · have hk : isP2pk (UInt8.ofNat k.length :: k ++ [0xac]) = some k := by
+      simp [isP2pk, hl, get, List.getD, List.getElem?_append_right, take_append_len k _ 33 hl]
+    have hu : unspendableFirst (UInt8.ofNat k.length :: k ++ [0xac]) = false := by
+      simp [unspendableFirst, hl]; decide
+    unfold evalBtc
+    simp only [hk, hu]
+    cases testnet <;> simp [pkPrefix, hl]
+  · have hk : isP2pk (UInt8.ofNat k.length :: k ++ [0xac]) = some k := by
+      simp [isP2pk, hl, get, List.getD, List.getElem?_append_right, take_append_len k _ 65 hl]
+    have hu : unspendableFirst (UInt8.ofNat k.length :: k ++ [0xac]) = false := by
+      simp [unspendableFirst, hl]; decide
+    unfold evalBtc
+    simp only [hk, hu]
+    cases testnet <;> simp [pkPrefix, hl]
+
+theorem eval_p2wpkh (testnet : Bool) (h : Bytes) (hl : h.length = 20) :
+    evalBtc testnet ([0x00, 0x14] ++ h) = ⟨.p2wpkh, some (A.segwitAddr (hrp testnet) 0 h)⟩ := by
+  have hw : witnessVersion ([0x00, 0x14] ++ h) = some 0 := by simp [witnessVersion, get, List.getD, hl]
+  have hk : isP2pk ([0x00, 0x14] ++ h) = none := by simp [isP2pk, hl]
+  have h1 : isP2pkh ([0x00, 0x14] ++ h) = false := by simp [isP2pkh, hl]
+  have h2 : isP2sh ([0x00, 0x14] ++ h) = false := by simp [isP2sh, hl]
+  have hu : unspendableFirst ([0x00, 0x14] ++ h) = false := by simp [unspendableFirst]; decide
+  unfold evalBtc
+  simp only [hw, hk, h1, h2, hu]
+  cases testnet <;> simp [hrp, hl, get, List.getD]
+
+theorem eval_p2wsh (testnet : Bool) (h : Bytes) (hl : h.length = 32) :
+    evalBtc testnet ([0x00, 0x20] ++ h) = ⟨.p2wsh, some (A.segwitAddr (hrp testnet) 0 h)⟩ := by
+  have hw : witnessVersion ([0x00, 0x20] ++ h) = some 0 := by simp [witnessVersion, get, List.getD, hl]
+  have hk : isP2pk ([0x00, 0x20] ++ h) = none := by simp [isP2pk, hl]
+  have h1 : isP2pkh ([0x00, 0x20] ++ h) = false := by simp [isP2pkh, hl]
+  have h2 : isP2sh ([0x00, 0x20] ++ h) = false := by simp [isP2sh, hl]
+  have hu : unspendableFirst ([0x00, 0x20] ++ h) = false := by simp [unspendableFirst]; decide
+  unfold evalBtc
+  simp only [hw, hk, h1, h2, hu]
+  cases testnet <;> simp [hrp, hl, get, List.getD]
+
+theorem eval_p2tr (testnet : Bool) (h : Bytes) (hl : h.length = 32) :
+    evalBtc testnet ([0x51, 0x20] ++ h) = ⟨.p2tr, some (A.segwitAddr (hrp testnet) 1 h)⟩ := by
+  have hw : witnessVersion ([0x51, 0x20] ++ h) = some 1 := by simp [witnessVersion, get, List.getD, hl]
+  have hk : isP2pk ([0x51, 0x20] ++ h) = none := by simp [isP2pk, hl]
+  have h1 : isP2pkh ([0x51, 0x20] ++ h) = false := by simp [isP2pkh, hl]
+  have h2 : isP2sh ([0x51, 0x20] ++ h) = false := by simp [isP2sh, hl]
+  have hu : unspendableFirst ([0x51, 0x20] ++ h) = false := by simp [unspendableFirst]; decide
+  unfold evalBtc
+  simp only [hw, hk, h1, h2, hu]
+  cases testnet <;> simp [hrp, hl, get, List.getD]
+
+/-- every script whose first byte is OP_RETURN is typed OpReturn with no address; every script whose first opcode is of
+    class Return/Illegal is Unspendable with no address -/
+theorem eval_opreturn_no_address (testnet : Bool) (rest : Bytes) :
+    (evalBtc testnet (0x6a :: rest)).address = none ∧ ∃ p, (evalBtc testnet (0x6a :: rest)).pattern = .opReturn p := by
+  unfold evalBtc
+  simp
+
+theorem eval_unspendable (testnet : Bool) (b : UInt8) (rest : Bytes) (hb : b ≠ 0x6a)
+    (hc : classify b = .ret ∨ classify b = .illegal) :
+    evalBtc testnet (b :: rest) = ⟨.unspendable, none⟩ := by
+  unfold evalBtc
+  have : unspendableFirst (b :: rest) = true := by simp [unspendableFirst, hc]
+  simp [hb, this]
+end S
